@@ -139,6 +139,45 @@ theorem c03_alloc_total (s : State) (hr : Reachable s) (size os big : Nat) (h0 :
     have : size < 513 := by rw [maxBinSize_eq] at hs; omega
     exact ⟨(findBin_spec size this).1, (findBin_spec size this).2, findBin_min size this⟩
 
+/-- every request above `s_max_bin_size` — for ALL sizes up to SIZE_MAX, not a sample — is handed to the parent:
+no bin, page or counter changes, `bytes_active` is unchanged, the parent holds a block of exactly that size.
+(`servedByBin`, the test in `s_sba_alloc`, is generated from the source text; `servedByBin_iff` ties it.) -/
+theorem c03_large_to_parent (s : State) (size os big : Nat) (hbig : maxBinSize < size) (hlt : size < SIZE_MOD)
+    (hos : s.pages os = none) (hfresh : s.parent big = none) :
+    ¬ servedByBin size ∧
+    ∃ s', act s (.alloc size os big) = (s', some (.big big)) ∧ s'.bins = s.bins ∧ s'.pages = s.pages ∧
+      bytesActive s' = bytesActive s ∧ s'.parent big = some size ∧ s'.live = s.live ++ [(.big big, size)] := by
+  have hns : ¬ servedByBin size := fun hh => by have := (servedByBin_iff size).mp hh; omega
+  refine ⟨hns, ?_⟩
+  have hg : ¬ (size = 0 ∨ size ≥ SIZE_MOD ∨ (s.pages os).isSome ∨ (s.parent big).isSome) := by
+    rw [hos, hfresh]; simp; omega
+  refine ⟨withLive (setParent s big (some size)) (s.live ++ [(.big big, size)]), ?_, rfl, rfl, rfl, ?_, rfl⟩
+  · simp only [act, hg, if_false, sbaAlloc, hns]
+    rfl
+  · simp [withLive, setParent]
+
+/-- `aws_mem_calloc` with a product `num * size` that does not fit a `size_t` returns no block and changes nothing
+(the library's fatal assert); with a product that fits, the total handed to `s_sba_alloc` is exactly `num * size`
+(`aws_mul_size_checked` is the generated function) -/
+theorem c03_calloc_checked (s : State) (num size os big : Nat) :
+    (SIZE_MOD ≤ num * size → calloc s num size os big = (s, none)) ∧
+    (num ≠ 0 → size ≠ 0 → num * size < SIZE_MOD →
+      calloc s num size os big =
+        (match (act s (.alloc (num * size) os big)).2 with
+         | some p => ((act (act s (.alloc (num * size) os big)).1 (.write p (List.replicate (num * size) 0))).1, some p)
+         | none => ((act s (.alloc (num * size) os big)).1, none))) := by
+  constructor
+  · intro h
+    unfold calloc
+    split
+    · rfl
+    · obtain ⟨e, he⟩ := mul_size_checked_err h
+      rw [he]
+  · intro h1 h2 h3
+    have hg : ¬ (num = 0 ∨ size = 0) := by omega
+    simp only [calloc, hg, if_false, mul_size_checked_ok h3]
+    rfl
+
 /-- [B] realloc (all four cases; across the 512-byte boundary in both directions) preserves
 `min old new` bytes, keeps every other live block live and writes to none of them -/
 theorem c03_realloc_contents (s : State) (hr : Reachable s) (p : Ptr) (old new os big : Nat)
